@@ -9,6 +9,12 @@ kind == "fuzz": native go fuzzing (thorough only): fuzz (target), fuzztime.
 Q, T = "quick", "thorough"
 
 PROPS = {
+    "C20": {"engines": [
+        {"name": "controller-concurrent", "pkg": "controller", "run": "^TestVerifC20Controller$", "race": True,
+         "checks": {Q: 400, T: 32000}, "shards": {Q: 4, T: 16}, "timeout": {Q: 900, T: 5400}},
+        {"name": "speaker-concurrent", "pkg": "speaker", "run": "^TestVerifC20Speaker$", "race": True,
+         "checks": {Q: 400, T: 32000}, "shards": {Q: 4, T: 16}, "timeout": {Q: 900, T: 5400}},
+    ]},
     "C17": {"engines": [
         {"name": "loopback-session", "pkg": "internal/bgp/native", "run": "^TestVerifC17Session$", "race": True, "shrinktime": "20s",
          "checks": {Q: 600, T: 48000}, "shards": {Q: 4, T: 16}, "timeout": {Q: 900, T: 5400}},
